@@ -93,6 +93,9 @@ pub enum Action {
     Critical { ms: u64 },
     Stall { ms: u64 },
     SetWindow { link: usize, window: i32 },
+    /// Direct write of the inputs the loop glue stamps onto a link (they are overwritten by the
+    /// next housekeeping tick): weak / loss-degraded verdicts.
+    SetGlue { link: usize, weak: bool, loss_degraded: bool },
 }
 
 impl Action {
@@ -116,6 +119,7 @@ impl Action {
             Action::Critical { .. } => "critical",
             Action::Stall { .. } => "stall",
             Action::SetWindow { .. } => "set_window",
+            Action::SetGlue { .. } => "set_glue",
         }
     }
 }
@@ -662,7 +666,8 @@ pub fn shrink(plan: &LPlan) -> Vec<LPlan> {
             | Action::SendFault { link, .. }
             | Action::BindFail { link, .. }
             | Action::Inject { link, .. }
-            | Action::SetWindow { link, .. } => *link == last,
+            | Action::SetWindow { link, .. }
+            | Action::SetGlue { link, .. } => *link == last,
             _ => false,
         });
         if !names_last {
